@@ -1441,6 +1441,9 @@ pub fn mutate_layout(rng: &mut Rng, txt: &str) -> (&'static str, String) {
                     counter += 1;
                     if rng.chance(1, 3) {
                         s.push_str(&format!("// c{counter}\n"));
+                    } else if rng.chance(1, 4) {
+                        // a block comment over several lines whose inner lines end in blanks / a tab
+                        s.push_str(&format!("/* c{counter} \n   inner line \t\n   last */ "));
                     } else {
                         s.push_str(&format!("/* c{counter} */ "));
                     }
